@@ -12,15 +12,18 @@ open Txdbus.Obj.Dispatch Txdbus.Obj.DispatchSpec Txdbus.Obj.DispatchProps
 /-! ### the environment of a history with Properties calls -/
 
 /-- The parameters of the dispatcher in the composition with C17:
-* `enc`   - whether a result can be marshalled is C17's business (`Props.encodeVariant` inside
-            `opGet` / `opGetAll`; an unmarshallable result is C17's `err value`), so the dispatcher's
-            own parameter never objects;
+* `enc`   - whether a result of the three LIBRARY functions can be marshalled is C17's business
+            (`Props.encodeVariant` inside `opGet` / `opGetAll`; an unmarshallable result is C17's
+            `err value`), so the dispatcher's own parameter does not object under the three reply
+            signatures `v` / `` / `a{sv}`; for every other signature (user methods of the same
+            history) it is unconstrained;
 * `fix`   - the repaired `send_error`;
 * `valid` - `validateErrorName` accepts the names `org.txdbus.PythonException.<Class>` that can occur;
 * `vname`, `vcls` - the exception Python raises on a bad value carries no `dbusErrorName` and is
             not a plain `Exception` (it is a ValueError / TypeError / OverflowError / MarshallingError). -/
 structure LibEnvOK (env : Env PV) (L : Lib) : Prop where
-  enc : ∀ sg body, env.encErr sg body = none
+  enc : ∀ sg body, sg ∈ [Gen.DispatchBuiltin.getReplySig.toList, Gen.DispatchBuiltin.setReplySig.toList,
+    Gen.DispatchBuiltin.getAllReplySig.toList] → env.encErr sg body = none
   fix : env.textFix = fixRepaired
   valid : ∀ cat, env.validErr (pyExceptionPrefix ++ (excOfCat L cat).cls) = true
   vname : L.vexc.errName = none
@@ -104,36 +107,84 @@ theorem errCat_value (cls text : Str) (h : cls ≠ invalidProperty.cls) :
 
 /-! ### one outcome, sent and observed -/
 
-theorem fireOutcome_obs (env : Env PV) (L : Lib) (h : LibEnvOK env L) (p : Pending) (out : Props.Out)
-    (hr : isReplyOut out = true) (hs : sigFits p.sigOut out) :
-    (replies (fireOutcome env p (outcomeOf L out))).map obsMsg = [some (normOut out)] := by
+/-- The reply (at most one message) the dispatcher sends for a library outcome, EXACTLY: serial and
+destination of the call, the reply signature of the member, the value C17's model computed; for an
+error the name `org.txdbus.PythonException.<Class>` and the exception text as the repaired
+`send_error` sends it (NUL escaped). -/
+def exactReply (L : Lib) (serial : Nat) (sender : Option Str) : Props.Out → List (Msg PV)
+  | .ret => [.ret serial sender (some Gen.DispatchBuiltin.setReplySig.toList) (.vals [.val .none])]
+  | .retV s w => [.ret serial sender (some Gen.DispatchBuiltin.getReplySig.toList) (.vals [.variant s w])]
+  | .retD l => [.ret serial sender (some Gen.DispatchBuiltin.getAllReplySig.toList) (.vals [.dict l])]
+  | .err cat => [.err (pyExceptionPrefix ++ (excOfCat L cat).cls) serial sender (escapeNul (excOfCat L cat).text)]
+  | _ => []
+
+theorem fireOutcome_exact (env : Env PV) (L : Lib) (h : LibEnvOK env L) (p : Pending) (out : Props.Out)
+    (hs : sigFits p.sigOut out) :
+    replies (fireOutcome env p (outcomeOf L out)) =
+      (if isReplyOut out then exactReply L p.serial p.sender out
+       else [.err (pyExceptionPrefix ++ L.vexc.cls) p.serial p.sender (escapeNul L.vexc.text)]) := by
+  have hv : ∀ e : Exc, e.errName = none → env.validErr (pyExceptionPrefix ++ e.cls) = true →
+      replies (sendError env p e) = [.err (pyExceptionPrefix ++ e.cls) p.serial p.sender (escapeNul e.text)] := by
+    intro e hn hval
+    simp only [sendError_eq, errorText, errorName, hn, hval, if_true, h.fix, fixRepaired, replies,
+      List.filterMap_cons, List.filterMap_nil]
   cases out with
   | ret =>
     simp only [sigFits] at hs
-    simp [outcomeOf, fireOutcome, fire, sendReply, h.enc, replies, obsMsg, hs, normOut]
+    have := h.enc p.sigOut [.val .none] (by simp [hs])
+    rw [hs] at this
+    simp [outcomeOf, fireOutcome, fire, sendReply, this, replies, hs, isReplyOut, exactReply]
   | retV s w =>
     simp only [sigFits] at hs
-    simp [outcomeOf, fireOutcome, fire, sendReply, h.enc, replies, obsMsg, hs, normOut]
+    have := h.enc p.sigOut [.variant s w] (by simp [hs])
+    rw [hs] at this
+    simp [outcomeOf, fireOutcome, fire, sendReply, this, replies, hs, isReplyOut, exactReply]
   | retD l =>
     simp only [sigFits] at hs
-    simp [outcomeOf, fireOutcome, fire, sendReply, h.enc, replies, obsMsg, hs, normOut]
+    have := h.enc p.sigOut [.dict l] (by simp [hs])
+    rw [hs] at this
+    simp [outcomeOf, fireOutcome, fire, sendReply, this, replies, hs, isReplyOut, exactReply]
   | err cat =>
-    have hn := excOfCat_errName L h.vname cat
-    have hvalid := h.valid cat
-    simp only [outcomeOf, fireOutcome, fire, sendError_eq, errorText, errorName, hn, hvalid, if_true, h.fix,
-      fixRepaired, replies, List.filterMap_cons, List.filterMap_nil, List.map_cons, List.map_nil, obsMsg]
+    simp only [outcomeOf, fireOutcome, fire, isReplyOut, if_true, exactReply]
+    exact hv _ (excOfCat_errName L h.vname cat) (h.valid cat)
+  | signal o i pn s w =>
+    simp only [outcomeOf, fireOutcome, fire, isReplyOut, Bool.false_eq_true, if_false]
+    exact hv _ h.vname (h.valid .value)
+  | raised =>
+    simp only [outcomeOf, fireOutcome, fire, isReplyOut, Bool.false_eq_true, if_false]
+    exact hv _ h.vname (h.valid .value)
+  | done =>
+    simp only [outcomeOf, fireOutcome, fire, isReplyOut, Bool.false_eq_true, if_false]
+    exact hv _ h.vname (h.valid .value)
+
+/-- The exact reply, observed the way C17 observes replies, is C17's outcome. -/
+theorem exactReply_obs (L : Lib) (hvcls : L.vexc.cls ≠ invalidProperty.cls) (serial : Nat) (sender : Option Str)
+    (out : Props.Out) (hr : isReplyOut out = true) :
+    (exactReply L serial sender out).map obsMsg = [some (normOut out)] := by
+  cases out with
+  | ret => simp [exactReply, obsMsg, normOut]
+  | retV s w => simp [exactReply, obsMsg, normOut]
+  | retD l => simp [exactReply, obsMsg, normOut]
+  | err cat =>
     obtain ⟨t1, t2, t3, t4⟩ := errCat_table
+    simp only [exactReply, List.map_cons, List.map_nil, obsMsg]
     cases cat with
     | unknownProp => simp [excOfCat, t1, normOut]
     | notReadable => simp [excOfCat, t2, normOut]
     | notWritable => simp [excOfCat, t3, normOut]
     | unknownIface => simp [excOfCat, t4, normOut]
-    | value => simp [excOfCat, errCat_value _ _ h.vcls, normOut]
-    | noAttr => simp [excOfCat, errCat_value _ _ h.vcls, normOut]
-    | unknownObject => simp [excOfCat, errCat_value _ _ h.vcls, normOut]
+    | value => simp [excOfCat, errCat_value _ _ hvcls, normOut]
+    | noAttr => simp [excOfCat, errCat_value _ _ hvcls, normOut]
+    | unknownObject => simp [excOfCat, errCat_value _ _ hvcls, normOut]
   | signal o i pn s w => simp [isReplyOut] at hr
   | raised => simp [isReplyOut] at hr
   | done => simp [isReplyOut] at hr
+
+theorem fireOutcome_obs (env : Env PV) (L : Lib) (h : LibEnvOK env L) (p : Pending) (out : Props.Out)
+    (hr : isReplyOut out = true) (hs : sigFits p.sigOut out) :
+    (replies (fireOutcome env p (outcomeOf L out))).map obsMsg = [some (normOut out)] := by
+  rw [fireOutcome_exact env L h p out hs, if_pos hr]
+  exact exactReply_obs L h.vcls _ _ out hr
 
 /-- The outcome of a library function is available at once (no Deferred). -/
 theorem outcomeOf_not_deferred (L : Lib) (out : Props.Out) : outcomeOf L out ≠ .deferred := by
@@ -328,6 +379,66 @@ theorem fireOutcome_err_exact (env : Env PV) (L : Lib) (h : LibEnvOK env L) (p :
 theorem table_texts_no_nul :
     '\x00' ∉ invalidProperty.text ∧ '\x00' ∉ notReadable.text ∧ '\x00' ∉ notWritable.text ∧
     '\x00' ∉ invalidInterface.text := by decide
+
+/-! ### `callStep`: when C17's state moves -/
+
+theorem invokedIn_tag (id k : Nat) (evs : List (Event PV)) :
+    invokedIn id (evs.map fun e => (k, e)) = (invocations evs).any (fun x => x.1 == id) := by
+  induction evs with
+  | nil => rfl
+  | cons e t ih =>
+    unfold invokedIn at ih ⊢
+    cases e with
+    | sent m => simpa [invocations] using ih
+    | invoked f a cl =>
+      simp only [List.map_cons, List.any_cons, invocations, List.filterMap_cons]
+      simp only [invocations] at ih
+      rw [ih]
+
+theorem invocations_handleCall (env : Env PV) (ex : Exports) (k : Nat) (c : Call PV) (b : Nat → Outcome PV) :
+    invocations (handleCall env ex k c b).1 = expectedInvocations c (verdict ex c) := by
+  rw [handleCall_eq, expectedCall_split]
+  simp only [invocations_append, callInv_invocations, (callReplies_replyish env k c b _).invocations,
+    List.append_nil]
+
+/-- The call is dispatched to `_dbus_PropertySet` (whatever it answers, whether or not a reply is expected). -/
+def runsSet (ex : Exports) (c : Call PV) : Bool :=
+  match verdict ex c with
+  | .run f _ => f.id == setId
+  | _ => false
+
+theorem invokedIn_step_call (env : Env PV) (s : State) (c : Call PV) (b : Nat → Outcome PV) (id : Nat) :
+    invokedIn id (step env s (.call c b)).2 =
+      (match verdict s.exports c with
+       | .run f _ => f.id == id
+       | _ => false) := by
+  simp only [step]
+  rw [invokedIn_tag, invocations_handleCall]
+  cases verdict s.exports c <;> simp [expectedInvocations, expectedInvocation]
+
+/-- `callStep`: the dispatcher's part is its ordinary step with the library behaviours; C17's state after
+the call is `opSet`'s (through `libSet`) exactly when the call is dispatched to `_dbus_PropertySet` - path
+exported, interface and member found, signature `ssv`, the library function bound - and unchanged in
+every other case (failed lookups, other members, other objects' calls).  `expectReply` plays no role. -/
+theorem callStep_state (env : Env PV) (L : Lib) (s : State) (st : Props.St) (c : Call PV)
+    (user : Nat → Outcome PV) :
+    (callStep env L s st c user).1 = (step env s (.call c (libBehav L st c user))).1 ∧
+    (callStep env L s st c user).2.2.1 = (step env s (.call c (libBehav L st c user))).2 ∧
+    (callStep env L s st c user).2.1 = (if runsSet s.exports c then (libSet L st c.body).2.1 else st) ∧
+    (callStep env L s st c user).2.2.2 = (if runsSet s.exports c then (libSet L st c.body).2.2 else []) := by
+  unfold callStep runsSet
+  simp only [invokedIn_step_call]
+  cases hv : verdict s.exports c with
+  | run f m =>
+    simp only
+    by_cases hf : (f.id == setId) = true
+    · simp [hf]
+    · simp [hf]
+  | builtin x => simp
+  | unknownObject => simp
+  | unknownMethod => simp
+  | invalidArgs m => simp
+  | unbound m => simp
 
 /-! ### when the library serves the Properties interface -/
 
